@@ -2,134 +2,239 @@ import Sqljson.Lemmas.LaxTotal
 import Sqljson.Lemmas.ApiGood
 /-!
 # C07 (second half) — lax structural totality over whole accessor paths
+
+`Props/C07.lean` proves, one step at a time, that lax mode absorbs structural mismatches (a member
+accessor on a non-object or a missing key, `.*` on a non-object, `[*]`/`[i]` on a non-array,
+out-of-range subscripts).  Here the statement is lifted to whole paths of unbounded length, by the
+invariant `Exec.Lax.lt_all` of `Lemmas/LaxTotal.lean` (induction on fuel over `xItem`/`xBool`/`xAny`,
+one lemma per Go function).
+
+**Classes of paths** (`Exec.Lax.AccG`, decidable predicates on the AST):
+* `Accessor`: chains of `$`, `@`, `.key`, `.*`, `[*]`, `.**{a to b}` (any bounds), subscripts
+  `[i, j to k, last]` whose bounds are int32 literals or `last`, the literals `true false null "s" 1 1.5`,
+  `.type()`, `.size()`;
+* `AccessorF`: the same plus filters `?(p)`, `p` built from `&&`, `||`, `!`, `is unknown`,
+  `exists(path)`, `path ⋈ path` for `== != < <= > >=` and `starts with`, `path like_regex "…"`, where the
+  operand paths are again `AccessorF` paths (so literals, `@.a.b`, nested filters …).
+
+**Theorems**
+* executor level (`xItem`, every context, state, value, result list, fuel):
+  `lax_path_total` — in lax mode with `ignoreStructuralErrors` set, an `Accessor` path returns no error
+  and a status other than `failed`, unless the run was cancelled or ran out of fuel (sticky flags);
+  `lax_filter_path_total` — the same for `AccessorF` over plain documents;
+  `path_error_class` — both modes: the only possible error is the suppressible one;
+  `path_never_panics`, `path_never_cancelled` (a context that is never done);
+* entry points, lax: `lax_accessors_total` (`Query` returns a sequence), `lax_accessors_first`,
+  `lax_accessors_exists` (`true`/`false`, never NULL), `lax_accessors_total_ctx` (with a cancellable
+  context, cancellation is the only error); `lax_filters_total`, `lax_filters_exists` for `AccessorF`;
+  all for both values of `silent`;
+* entry points, strict: `strict_accessor_error_class` (items, or the suppressible error: never
+  `ErrExecution`-only, `ErrInvalid`, or a panic), `strict_accessor_silent` (under `WithSilent`: items),
+  `strict_filters_error_class`.
+
+**Side conditions, each with a counterexample below**
+* documents: no array of more than 2^31 elements (`lenOK`; only `last` needs it: it is read back through
+  `getJSONInt32`); for `AccessorF` additionally no datetime items and no `json.Number`s (`plainOK`):
+  comparing a datetime with a non-datetime is `ErrInvalid` in lax mode too (known finding D15);
+* `like_regex` patterns compile (`hre`; the parser checks this);
+* excluded from the classes because they err in lax mode: subscript bounds that are not int32 numbers,
+  `last` outside a subscript, `.keyvalue()` and the conversion methods, variables, arithmetic.
 -/
 
 namespace Sqljson
 namespace C07b
 open Exec Api Exec.Lax
 
+/-! ## the three instances of the standing assumptions -/
+
+/-- `Accessor` paths over documents without huge arrays -/
+theorem env_len (c : Ctx) (hroot : lenOK c.root = true) : Env (fun v => lenOK v = true) c false :=
+  ⟨docClass_lenOK, hroot, fun _ _ h => (lenOK_arr h).1, fun h => by cases h⟩
+
+/-- strict mode: `Accessor` paths over all documents -/
+theorem env_all (c : Ctx) (hstrict : c.lax = false) : Env (fun _ => True) c false :=
+  ⟨docClass_true, trivial, fun h => (by rw [hstrict] at h; cases h), fun h => by cases h⟩
+
+/-- `AccessorF` paths over plain documents -/
+theorem env_plain (c : Ctx) (hroot : plainOK c.root = true)
+    (hre : ∀ p fl t, (c.regexMatch p fl t).isSome = true) : Env (fun v => plainOK v = true) c true :=
+  ⟨docClass_plainOK, hroot, fun _ _ h => (plainOK_arr h).1, fun _ => filterOK_plain c hre⟩
+
 /-! ## the executor -/
 
 /-- **Lax totality, executor level.**  An accessor path evaluated in lax mode returns no error and
-    never `statusFailed`, unless the run was cancelled or the model ran out of fuel. -/
+    never `statusFailed`, unless the run was cancelled or the model ran out of fuel.
+    (`hf`: the items already collected are in the document class too.) -/
 theorem lax_path_total (c : Ctx) (fuel : Nat) (s : St) (n : Node) (v : Item) (f : Found) (u : Bool)
     (hlax : c.lax = true) (hig : s.ignoreSE = true) (hn : Accessor n = true)
     (hv : lenOK v = true) (hcur : lenOK s.current = true) (hroot : lenOK c.root = true)
+    (hf : AllD (fun v => lenOK v = true) f)
     (hoof : (xItem c fuel s n v f u).st.oof = false) (hsc : (xItem c fuel s n v f u).st.sawCancel = false) :
     (xItem c fuel s n v f u).err = none ∧ (xItem c fuel s n v f u).status ≠ .failed :=
-  ((xItem_lt c fuel s n v f u hn).2 (by simp [dirty, hoof, hsc])).2 ⟨⟨hlax, hig, hcur, hroot⟩, hv⟩
+  (((xItem_lt (env_len c hroot) fuel s n v f u hn hv hcur hf).1).2 (by simp [dirty, hoof, hsc])).2 ⟨hlax, hig⟩
+
+/-- the same for paths with filters, over plain documents -/
+theorem lax_filter_path_total (c : Ctx) (fuel : Nat) (s : St) (n : Node) (v : Item) (f : Found) (u : Bool)
+    (hlax : c.lax = true) (hig : s.ignoreSE = true) (hn : AccessorF n = true)
+    (hre : ∀ p fl t, (c.regexMatch p fl t).isSome = true)
+    (hv : plainOK v = true) (hcur : plainOK s.current = true) (hroot : plainOK c.root = true)
+    (hf : AllD (fun v => plainOK v = true) f)
+    (hoof : (xItem c fuel s n v f u).st.oof = false) (hsc : (xItem c fuel s n v f u).st.sawCancel = false) :
+    (xItem c fuel s n v f u).err = none ∧ (xItem c fuel s n v f u).status ≠ .failed :=
+  (((xItem_lt (env_plain c hroot hre) fuel s n v f u hn hv hcur hf).1).2 (by simp [dirty, hoof, hsc])).2 ⟨hlax, hig⟩
 
 /-- a context that is never done is never seen cancelled -/
-theorem path_never_cancelled (c : Ctx) (fuel : Nat) (s : St) (n : Node) (v : Item) (f : Found) (u : Bool)
-    (hn : Accessor n = true) (hb : s.budget = none) :
-    (xItem c fuel s n v f u).st.sawCancel = s.sawCancel :=
-  ((xItem_lt c fuel s n v f u hn).1.budget hb).2
+theorem path_never_cancelled {D : Item → Prop} {c : Ctx} {ff : Bool} (E : Env D c ff) (fuel : Nat) (s : St)
+    (n : Node) (v : Item) (f : Found) (u : Bool) (hn : AccG ff n = true) (hv : D v) (hcur : D s.current)
+    (hf : AllD D f) (hb : s.budget = none) : (xItem c fuel s n v f u).st.sawCancel = s.sawCancel :=
+  ((xItem_lt E fuel s n v f u hn hv hcur hf).1.1.budget hb).2
 
-/-- an accessor path never panics, lax or strict -/
-theorem path_never_panics (c : Ctx) (fuel : Nat) (s : St) (n : Node) (v : Item) (f : Found) (u : Bool)
-    (hn : Accessor n = true) : (xItem c fuel s n v f u).st.panicked = s.panicked :=
-  (xItem_lt c fuel s n v f u hn).1.panicked
+/-- a path of these classes never panics, lax or strict -/
+theorem path_never_panics {D : Item → Prop} {c : Ctx} {ff : Bool} (E : Env D c ff) (fuel : Nat) (s : St)
+    (n : Node) (v : Item) (f : Found) (u : Bool) (hn : AccG ff n = true) (hv : D v) (hcur : D s.current)
+    (hf : AllD D f) : (xItem c fuel s n v f u).st.panicked = s.panicked :=
+  (xItem_lt E fuel s n v f u hn hv hcur hf).1.1.panicked
 
-/-- **Error class, both modes.**  The only error an accessor path can return (run not cancelled, fuel
-    not exhausted) is the suppressible one -/
-theorem path_error_class (c : Ctx) (fuel : Nat) (s : St) (n : Node) (v : Item) (f : Found) (u : Bool)
-    (hn : Accessor n = true)
+/-- **Error class, both modes.**  The only error such a path can return (run not cancelled, fuel not
+    exhausted) is the suppressible one -/
+theorem path_error_class {D : Item → Prop} {c : Ctx} {ff : Bool} (E : Env D c ff) (fuel : Nat) (s : St)
+    (n : Node) (v : Item) (f : Found) (u : Bool) (hn : AccG ff n = true) (hv : D v) (hcur : D s.current)
+    (hf : AllD D f)
     (hoof : (xItem c fuel s n v f u).st.oof = false) (hsc : (xItem c fuel s n v f u).st.sawCancel = false) :
     (xItem c fuel s n v f u).err = none ∨ (xItem c fuel s n v f u).err = some .verbose :=
-  ((xItem_lt c fuel s n v f u hn).2 (by simp [dirty, hoof, hsc])).1
+  ((xItem_lt E fuel s n v f u hn hv hcur hf).1.2 (by simp [dirty, hoof, hsc])).1
 
 /-! ## the entry points -/
 
+section Entry
+variable {D : Item → Prop} {ff : Bool}
+
 /-- `exec.query` (which in strict mode runs a probe as a collecting run) keeps the invariant -/
-theorem query_lt (c : Ctx) (fuel : Nat) (s : St) (n : Node) (v : Item) (f : Found) (hn : Accessor n = true) :
-    LT c s v (query c fuel s n v f) := by
+theorem query_lt {c : Ctx} (E : Env D c ff) (fuel : Nat) (s : St) (n : Node) (v : Item) (f : Found)
+    (hn : AccG ff n = true) (hv : D v) (hcur : D s.current) (hf : AllD D f) :
+    Out D c s (query c fuel s n v f) := by
   unfold query
   split
   · rename_i hcond
-    have hnl : ¬ (LaxS c s ∧ lenOK v = true) := fun h => by simp [h.1.1] at hcond
-    have hr : LT c s v (executeItem c (xItem c fuel) s n v (some [])) := xItem_lt c fuel s n v _ _ hn
+    have hnl : ¬ Lx c s := fun h => by simp [h.1] at hcond
+    have hr : Out D c s (executeItem c (xItem c fuel) s n v (some [])) :=
+      xItem_lt E fuel s n v _ _ hn hv hcur AllD.nil
     try dsimp only
     split
-    · exact ⟨hr.1, fun hd => ⟨(hr.2 hd).1, fun h => absurd h hnl⟩⟩
+    · exact ⟨⟨hr.1.1, fun hd => ⟨(hr.1.2 hd).1, fun h => absurd h hnl⟩⟩, AllD.none⟩
     · split
-      · exact Out3.ret hr.1 _ _ (Or.inl rfl) (fun h => absurd h hnl)
-      · exact Out3.ret hr.1 _ _ (Or.inl rfl) (fun h => absurd h hnl)
-  · exact xItem_lt c fuel s n v _ _ hn
+      · exact ⟨Out3.ret hr.1.1 _ _ (Or.inl rfl) (fun h => absurd h hnl), AllD.none⟩
+      · exact ⟨Out3.ret hr.1.1 _ _ (Or.inl rfl) (fun h => absurd h hnl), AllD.none⟩
+  · exact xItem_lt E fuel s n v _ _ hn hv hcur hf
 
-theorem runRes_lt (e : Entry) (fuel : Nat) (a : AST) (doc : Item) (o : Opts) (hacc : Accessor a.root = true) :
-    LT (mkCtx a doc o) (initSt a doc o) doc (runRes e fuel a doc o) := by
+theorem runRes_lt (e : Entry) (fuel : Nat) (a : AST) (doc : Item) (o : Opts) (E : Env D (mkCtx a doc o) ff)
+    (hacc : AccG ff a.root = true) (hdoc : D doc) :
+    Out D (mkCtx a doc o) (initSt a doc o) (runRes e fuel a doc o) := by
   unfold runRes
   cases e <;> simp only
-  · exact query_lt _ _ _ _ _ _ hacc
-  · exact query_lt _ _ _ _ _ _ hacc
-  · exact query_lt _ _ _ _ _ _ hacc
-  · exact query_lt _ _ _ _ _ _ hacc
+  · exact query_lt E _ _ _ _ _ hacc hdoc hdoc AllD.nil
+  · exact query_lt E _ _ _ _ _ hacc hdoc hdoc AllD.nil
+  · exact query_lt E _ _ _ _ _ hacc hdoc hdoc AllD.none
+  · exact query_lt E _ _ _ _ _ hacc hdoc hdoc AllD.nil
   · split
-    · exact query_lt _ _ _ _ _ _ hacc
-    · exact query_lt _ _ _ _ _ _ hacc
+    · exact query_lt E _ _ _ _ _ hacc hdoc hdoc AllD.nil
+    · exact query_lt E _ _ _ _ _ hacc hdoc hdoc AllD.none
 
 /-- everything the invariant says about the run underlying an entry point -/
-theorem run_facts (e : Entry) (fuel : Nat) (a : AST) (doc : Item) (o : Opts) (hacc : Accessor a.root = true) :
+theorem run_facts (e : Entry) (fuel : Nat) (a : AST) (doc : Item) (o : Opts) (E : Env D (mkCtx a doc o) ff)
+    (hacc : AccG ff a.root = true) (hdoc : D doc) :
     (runRes e fuel a doc o).st.panicked = false ∧
     (o.budget = none → (runRes e fuel a doc o).st.sawCancel = false) ∧
     ((runRes e fuel a doc o).st.oof = false → (runRes e fuel a doc o).st.sawCancel = false →
       ((runRes e fuel a doc o).err = none ∨ (runRes e fuel a doc o).err = some .verbose) ∧
-      (a.lax = true → lenOK doc = true →
-        (runRes e fuel a doc o).err = none ∧ (runRes e fuel a doc o).status ≠ .failed)) := by
-  have hr := runRes_lt e fuel a doc o hacc
+      (a.lax = true → (runRes e fuel a doc o).err = none ∧ (runRes e fuel a doc o).status ≠ .failed)) := by
+  have hr := (runRes_lt e fuel a doc o E hacc hdoc).1
   refine ⟨hr.1.panicked, fun hb => (hr.1.budget hb).2, fun hoof hsc => ?_⟩
   have h := hr.2 (by simp [dirty, hoof, hsc])
-  exact ⟨h.1, fun hlax hdoc => h.2 ⟨⟨hlax, hlax, hdoc, hdoc⟩, hdoc⟩⟩
+  exact ⟨h.1, fun hlax => h.2 ⟨hlax, hlax⟩⟩
 
-/-- **C07, whole paths: `Query`.**  A lax accessor path returns a (possibly empty) sequence for every
-    document, with or without `WithSilent`: never an error, never a panic. -/
-theorem lax_accessors_total (fuel : Nat) (a : AST) (doc : Item) (o : Opts) (hlax : a.lax = true)
-    (hacc : Accessor a.root = true) (hdoc : lenOK doc = true) (hb : o.budget = none) :
+/-- `Query`, lax, generic in the class -/
+theorem query_total (fuel : Nat) (a : AST) (doc : Item) (o : Opts) (E : Env D (mkCtx a doc o) ff)
+    (hacc : AccG ff a.root = true) (hdoc : D doc) (hlax : a.lax = true) (hb : o.budget = none) :
     (∃ xs, queryWith fuel a doc o = .items xs) ∨ queryWith fuel a doc o = .outOfFuel := by
-  obtain ⟨hp, hsc, h⟩ := run_facts .query fuel a doc o hacc
+  obtain ⟨hp, hsc, h⟩ := run_facts .query fuel a doc o E hacc hdoc
   simp only [runRes] at hp hsc h
   unfold queryWith guarded
   cases hoof : (execute fuel a doc o).st.oof with
   | true => right; simp [hoof]
   | false =>
     left
-    have := (h hoof (hsc hb)).2 hlax hdoc
+    have := (h hoof (hsc hb)).2 hlax
     simp [hoof, hp, this.1]
 
-/-- `First` -/
-theorem lax_accessors_first (fuel : Nat) (a : AST) (doc : Item) (o : Opts) (hlax : a.lax = true)
-    (hacc : Accessor a.root = true) (hdoc : lenOK doc = true) (hb : o.budget = none) :
+theorem first_total (fuel : Nat) (a : AST) (doc : Item) (o : Opts) (E : Env D (mkCtx a doc o) ff)
+    (hacc : AccG ff a.root = true) (hdoc : D doc) (hlax : a.lax = true) (hb : o.budget = none) :
     (∃ x, firstWith fuel a doc o = .first x) ∨ firstWith fuel a doc o = .outOfFuel := by
-  obtain ⟨hp, hsc, h⟩ := run_facts .first fuel a doc o hacc
+  obtain ⟨hp, hsc, h⟩ := run_facts .first fuel a doc o E hacc hdoc
   simp only [runRes] at hp hsc h
   unfold firstWith guarded
   cases hoof : (execute fuel a doc o).st.oof with
   | true => right; simp [hoof]
   | false =>
     left
-    have := (h hoof (hsc hb)).2 hlax hdoc
+    have := (h hoof (hsc hb)).2 hlax
     simp [hoof, hp, this.1]
 
-/-- `Exists`: `true` or `false`, never NULL, never an error -/
-theorem lax_accessors_exists (fuel : Nat) (a : AST) (doc : Item) (o : Opts) (hlax : a.lax = true)
-    (hacc : Accessor a.root = true) (hdoc : lenOK doc = true) (hb : o.budget = none) :
+theorem exists_total (fuel : Nat) (a : AST) (doc : Item) (o : Opts) (E : Env D (mkCtx a doc o) ff)
+    (hacc : AccG ff a.root = true) (hdoc : D doc) (hlax : a.lax = true) (hb : o.budget = none) :
     (∃ b, existsWith fuel a doc o = .bool b) ∨ existsWith fuel a doc o = .outOfFuel := by
-  obtain ⟨hp, hsc, h⟩ := run_facts .exists fuel a doc o hacc
+  obtain ⟨hp, hsc, h⟩ := run_facts .exists fuel a doc o E hacc hdoc
   simp only [runRes] at hp hsc h
   unfold existsWith guarded
   cases hoof : (existsRun fuel a doc o).st.oof with
   | true => right; simp [hoof]
   | false =>
     left
-    have := (h hoof (hsc hb)).2 hlax hdoc
+    have := (h hoof (hsc hb)).2 hlax
     simp [hoof, hp, this.1, this.2]
+
+/-- `Query`, either mode, generic in the class: items, or the suppressible error -/
+theorem query_error_class (fuel : Nat) (a : AST) (doc : Item) (o : Opts) (E : Env D (mkCtx a doc o) ff)
+    (hacc : AccG ff a.root = true) (hdoc : D doc) (hb : o.budget = none) :
+    (∃ xs, queryWith fuel a doc o = .items xs) ∨ queryWith fuel a doc o = .error .verbose ∨
+    queryWith fuel a doc o = .outOfFuel := by
+  obtain ⟨hp, hsc, h⟩ := run_facts .query fuel a doc o E hacc hdoc
+  simp only [runRes] at hp hsc h
+  unfold queryWith guarded
+  cases hoof : (execute fuel a doc o).st.oof with
+  | true => right; right; simp [hoof]
+  | false =>
+    rcases (h hoof (hsc hb)).1 with he | he
+    · left; simp [hoof, hp, he]
+    · right; left; simp [hoof, hp, he]
+
+end Entry
+
+/-- **C07, whole paths: `Query`.**  A lax accessor path returns a (possibly empty) sequence for every
+    document, with or without `WithSilent`: never an error, never a panic. -/
+theorem lax_accessors_total (fuel : Nat) (a : AST) (doc : Item) (o : Opts) (hlax : a.lax = true)
+    (hacc : Accessor a.root = true) (hdoc : lenOK doc = true) (hb : o.budget = none) :
+    (∃ xs, queryWith fuel a doc o = .items xs) ∨ queryWith fuel a doc o = .outOfFuel :=
+  query_total fuel a doc o (env_len _ hdoc) hacc hdoc hlax hb
+
+/-- `First` -/
+theorem lax_accessors_first (fuel : Nat) (a : AST) (doc : Item) (o : Opts) (hlax : a.lax = true)
+    (hacc : Accessor a.root = true) (hdoc : lenOK doc = true) (hb : o.budget = none) :
+    (∃ x, firstWith fuel a doc o = .first x) ∨ firstWith fuel a doc o = .outOfFuel :=
+  first_total fuel a doc o (env_len _ hdoc) hacc hdoc hlax hb
+
+/-- `Exists`: `true` or `false`, never NULL, never an error -/
+theorem lax_accessors_exists (fuel : Nat) (a : AST) (doc : Item) (o : Opts) (hlax : a.lax = true)
+    (hacc : Accessor a.root = true) (hdoc : lenOK doc = true) (hb : o.budget = none) :
+    (∃ b, existsWith fuel a doc o = .bool b) ∨ existsWith fuel a doc o = .outOfFuel :=
+  exists_total fuel a doc o (env_len _ hdoc) hacc hdoc hlax hb
 
 /-- with a context that may be cancelled, cancellation is the only error -/
 theorem lax_accessors_total_ctx (fuel : Nat) (a : AST) (doc : Item) (o : Opts) (hlax : a.lax = true)
     (hacc : Accessor a.root = true) (hdoc : lenOK doc = true) :
     (∃ xs, queryWith fuel a doc o = .items xs) ∨ queryWith fuel a doc o = .outOfFuel ∨
     queryWith fuel a doc o = .error .cancelled := by
-  obtain ⟨hp, -, h⟩ := run_facts .query fuel a doc o hacc
+  obtain ⟨hp, -, h⟩ := run_facts .query fuel a doc o (env_len _ hdoc) hacc hdoc
   simp only [runRes] at hp h
   have hg := execute_good fuel a doc o
   unfold queryWith guarded
@@ -143,30 +248,35 @@ theorem lax_accessors_total_ctx (fuel : Nat) (a : AST) (doc : Item) (o : Opts) (
       simp [hoof, hp, this]
     | false =>
       left
-      have := (h hoof hsc).2 hlax hdoc
+      have := (h hoof hsc).2 hlax
       simp [hoof, hp, this.1]
 
-/-- **strict-mode contrast.**  For the same paths in strict mode the only possible error is the
-    suppressible structural one: no `ErrExecution`-only error, no `ErrInvalid`, no panic -/
-theorem strict_accessor_error_class (fuel : Nat) (a : AST) (doc : Item) (o : Opts)
+/-- **lax totality with filters**: `AccessorF` paths over plain documents -/
+theorem lax_filters_total (fuel : Nat) (a : AST) (doc : Item) (o : Opts) (hlax : a.lax = true)
+    (hacc : AccessorF a.root = true) (hdoc : plainOK doc = true) (hb : o.budget = none)
+    (hre : ∀ p fl t, (o.regexMatch p fl t).isSome = true) :
+    (∃ xs, queryWith fuel a doc o = .items xs) ∨ queryWith fuel a doc o = .outOfFuel :=
+  query_total fuel a doc o (env_plain _ hdoc hre) hacc hdoc hlax hb
+
+theorem lax_filters_exists (fuel : Nat) (a : AST) (doc : Item) (o : Opts) (hlax : a.lax = true)
+    (hacc : AccessorF a.root = true) (hdoc : plainOK doc = true) (hb : o.budget = none)
+    (hre : ∀ p fl t, (o.regexMatch p fl t).isSome = true) :
+    (∃ b, existsWith fuel a doc o = .bool b) ∨ existsWith fuel a doc o = .outOfFuel :=
+  exists_total fuel a doc o (env_plain _ hdoc hre) hacc hdoc hlax hb
+
+/-- **strict-mode contrast.**  For the same paths in strict mode, over every document, the only possible
+    error is the suppressible structural one: no `ErrExecution`-only error, no `ErrInvalid`, no panic -/
+theorem strict_accessor_error_class (fuel : Nat) (a : AST) (doc : Item) (o : Opts) (hstrict : a.lax = false)
     (hacc : Accessor a.root = true) (hb : o.budget = none) :
     (∃ xs, queryWith fuel a doc o = .items xs) ∨ queryWith fuel a doc o = .error .verbose ∨
-    queryWith fuel a doc o = .outOfFuel := by
-  obtain ⟨hp, hsc, h⟩ := run_facts .query fuel a doc o hacc
-  simp only [runRes] at hp hsc h
-  unfold queryWith guarded
-  cases hoof : (execute fuel a doc o).st.oof with
-  | true => right; right; simp [hoof]
-  | false =>
-    rcases (h hoof (hsc hb)).1 with he | he
-    · left; simp [hoof, hp, he]
-    · right; left; simp [hoof, hp, he]
+    queryWith fuel a doc o = .outOfFuel :=
+  query_error_class fuel a doc o (env_all _ hstrict) hacc trivial hb
 
 /-- … and under `WithSilent` none at all -/
-theorem strict_accessor_silent (fuel : Nat) (a : AST) (doc : Item) (o : Opts)
+theorem strict_accessor_silent (fuel : Nat) (a : AST) (doc : Item) (o : Opts) (hstrict : a.lax = false)
     (hacc : Accessor a.root = true) (hb : o.budget = none) (hs : o.silent = true) :
     (∃ xs, queryWith fuel a doc o = .items xs) ∨ queryWith fuel a doc o = .outOfFuel := by
-  obtain ⟨hp, hsc, h⟩ := run_facts .query fuel a doc o hacc
+  obtain ⟨hp, hsc, h⟩ := run_facts .query fuel a doc o (env_all _ hstrict) hacc trivial
   simp only [runRes] at hp hsc h
   have hg := execute_good fuel a doc o
   unfold queryWith guarded
@@ -178,13 +288,21 @@ theorem strict_accessor_silent (fuel : Nat) (a : AST) (doc : Item) (o : Opts)
     · simp [hoof, hp, he]
     · exact absurd he (hg.silent (by simp [initSt, hs]))
 
-/-! ## non-vacuity and the boundary of the class -/
+/-- strict mode, paths with filters, plain documents: same error class -/
+theorem strict_filters_error_class (fuel : Nat) (a : AST) (doc : Item) (o : Opts)
+    (hacc : AccessorF a.root = true) (hdoc : plainOK doc = true) (hb : o.budget = none)
+    (hre : ∀ p fl t, (o.regexMatch p fl t).isSome = true) :
+    (∃ xs, queryWith fuel a doc o = .items xs) ∨ queryWith fuel a doc o = .error .verbose ∨
+    queryWith fuel a doc o = .outOfFuel :=
+  query_error_class fuel a doc o (env_plain _ hdoc hre) hacc hdoc hb
+
+/-! ## non-vacuity and the boundary of the classes -/
 
 section Examples
 
 private def k (s : String) (nx : Option Node) : Node := .key s.toList nx
 private def idx (l : Node) (r : Option Node) : Node := .binary .subscript (some l) r none
-
+private def cur (nx : Option Node) : Node := .const .current nx
 
 /-- `$.a.b` -/
 private def p1 : Node := .const .root (some (k "a" (some (k "b" none))))
@@ -193,9 +311,21 @@ private def p2 : Node :=
   .const .root <| some <| k "a" <| some <| .const .anyArray <| some <| k "b" <| some <|
   .arrayIndex [idx (.integer 0 none) (some (.const .last none)), idx (.integer 5 none) none] <| some <|
   .any 1 2 <| some <| .const .anyKey <| some <| k "c" <| some <| .method .size none
+/-- `$.a ? (@.b > 1 && exists(@.c) || !(@.d starts with "x")).b` -/
+private def p3 : Node :=
+  .const .root <| some <| k "a" <| some <| .unary .filter (some
+    (.binary .or
+      (some (.binary .and
+        (some (.binary .gt (some (cur (some (k "b" none)))) (some (.integer 1 none)) none))
+        (some (.unary .exists (some (cur (some (k "c" none)))) none)) none))
+      (some (.unary .not (some
+        (.binary .startsWith (some (cur (some (k "d" none)))) (some (.str "x".toList none)) none)) none))
+      none)) <| some <| k "b" none
 
 example : Accessor p1 = true := by decide
 example : Accessor p2 = true := by decide
+example : AccessorF p3 = true := by decide
+example : Accessor p3 = false := by decide
 
 /-- lax, mismatching documents: the empty sequence -/
 example : run .query 30 ⟨p1, true, false⟩ (.int 1) {} = .items [] := rfl
@@ -208,13 +338,20 @@ example : run .query 40 ⟨p2, true, false⟩
     (.obj [("a".toList, .arr [.obj [("b".toList, .arr [.obj [("x".toList,
       .obj [("y".toList, .obj [("c".toList, .arr [.int 1, .int 2])])])]])]])]) {} =
     .items [.int 2] := rfl
-/-- strict, same path: the structural error; silent: nothing -/
+/-- a filter whose operands do not fit the document: nothing, no error -/
+example : run .query 40 ⟨p3, true, false⟩ (.obj [("a".toList, .arr [.int 1, .str "s".toList, .obj []])]) {} =
+    .items [] := rfl
+example : run .query 40 ⟨p3, true, false⟩
+    (.obj [("a".toList, .arr [.obj [("b".toList, .int 7), ("c".toList, .null)], .obj [("b".toList, .int 0)]])]) {} =
+    .items [.int 7, .int 0] := rfl
+/-- strict, same paths: the structural error; silent: nothing -/
 example : run .query 30 ⟨p1, false, false⟩ (.int 1) {} = .error .verbose := rfl
 example : run .query 30 ⟨p1, false, false⟩ (.int 1) { silent := true } = .items [] := rfl
-/-- the hypotheses of `lax_accessors_total` are satisfiable -/
+/-- the hypotheses of `lax_accessors_total` / `lax_filters_total` are satisfiable -/
 example : ∃ xs, queryWith 30 ⟨p2, true, false⟩ (.arr [.null, .bool true]) {} = .items xs := ⟨[], rfl⟩
+example : plainOK (.obj [("a".toList, .arr [.int 1, .str "s".toList, .obj []])]) = true := by decide
 
-/-! What is excluded from `Accessor` is excluded for a reason: each of these lax paths errs. -/
+/-! What is excluded from the classes is excluded for a reason: each of these lax paths errs. -/
 
 /-- `$[2147483648]`: a literal bound outside int32 (`Bound`) -/
 example : run .query 30 ⟨.const .root (some (.arrayIndex [idx (.integer 2147483648 none) none] none)), true, false⟩
@@ -235,6 +372,10 @@ example : run .query 30 ⟨.var "x".toList none, true, false⟩ (.int 1) {} = .e
 example : (getArrayIndex (mkCtx ⟨p1, true, false⟩ .null {}) (xItem (mkCtx ⟨p1, true, false⟩ .null {}) 3)
     { initSt ⟨p1, true, false⟩ .null {} with innermost := 2147483649 } (.const .last none) .null).2 =
     .error .verbose := rfl
+/-- `$ ? (@ == 1)` on a datetime item (`plainOK`; known finding D15): `ErrInvalid`, in lax mode -/
+example : run .query 30 ⟨.const .root (some (.unary .filter
+      (some (.binary .eq (some (cur none)) (some (.integer 1 none)) none)) none)), true, false⟩
+    (.dt ⟨.date, 0, 0, 0⟩) {} = .error .invalid := rfl
 /-- known finding D6 (not an error): a subscript that selects JSON `null` drops it -/
 example : run .query 30 ⟨.const .root (some (.arrayIndex [idx (.integer 0 none) none] none)), true, false⟩
     (.arr [.null, .int 1]) {} = .items [] := rfl
